@@ -109,7 +109,7 @@ def _cat_data(shape, nser, rnd, number_format=None):
         d.categories = spec
     elif shape == "two_level":
         spec = []
-        for parent, kids in (("US", ["CA", "NY", "TX"]), ("EU", ["DE"]), ("Asia", ["JP", "CN"])):
+        for parent, kids in (("US", ["CA", "NY", "TX"]), ("", ["DE"]), ("Asia", ["JP", ""])):  # blank labels at both levels
             cat = d.add_category(parent)
             for k in kids:
                 cat.add_sub_category(k)
